@@ -84,7 +84,7 @@ CHECKS = {
         design='Appendix B (SSH)', note=CLS_NOTE + " X.509 host keys, v00 certificates and the source-address option are UNMODELLED (oracle only); ECDSA points go through asn1crypto."),
     'C08': dict(
         technique='Lean 4 proof that the DNS record model composers equal RFC-level spec encoders, the parsers invert them, and the key tag equals the RFC 4034 Appendix B algorithm + correspondence + independent Python reference',
-        text=("30 theorems (CpProps/C08.lean): domain names (labels, root, length limits), MX, TXT strings, DS, DNSKEY (flags, "
+        text=("41 theorems (CpProps/C08.lean): domain names (labels, root, length limits), MX, TXT strings, DS, DNSKEY (flags, "
               "protocol, algorithm, key material per algorithm), RRSIG (fixed part, signer name, signature) compose to the "
               "RFC 1035/4034 RDATA layout written independently in CpSpec/Dns.lean and parse back; the key tag of the model "
               "equals the Appendix B sum over the RDATA for odd and even lengths and the B.1 rule for algorithm 1. Deviations "
